@@ -506,7 +506,7 @@ func addChainInternal(ctx context.Context, li *logInfo, w http.ResponseWriter, r
 	if rsp == nil {
 		return http.StatusInternalServerError, errors.New("missing QueueLeaves response")
 	}
-	if rsp.QueuedLeaf == nil {
+	if rsp.QueuedLeaf == nil || rsp.QueuedLeaf.Leaf == nil {
 		return http.StatusInternalServerError, errors.New("QueueLeaf did not return the leaf")
 	}
 
@@ -628,6 +628,9 @@ func getSTHConsistency(ctx context.Context, li *logInfo, w http.ResponseWriter, 
 			return http.StatusBadRequest, fmt.Errorf("need tree size: %d for proof but only got: %d", second, currentRoot.TreeSize)
 		}
 
+		if rsp.Proof == nil {
+			return http.StatusInternalServerError, errors.New("backend did not return a consistency proof")
+		}
 		// Additional sanity checks, none of the hashes in the returned path should be empty
 		if !checkAuditPath(rsp.Proof.Hashes) {
 			return http.StatusInternalServerError, fmt.Errorf("backend returned invalid proof: %v", rsp.Proof)
@@ -916,6 +919,10 @@ func rpcGetEntryAndProof(ctx context.Context, li *logInfo, req *trillian.GetEntr
 	rsp, err := li.rpcClient.GetEntryAndProof(ctx, req)
 	if err != nil {
 		return nil, li.toHTTPStatus(err), fmt.Errorf("backend GetEntryAndProof request failed: %s", err)
+	}
+	if rsp.Leaf == nil {
+		// Nothing to fix; the caller reports the incomplete response.
+		return rsp, http.StatusOK, nil
 	}
 	if err := li.issuanceChainService.FixLogLeaf(ctx, rsp.Leaf); err != nil {
 		return nil, http.StatusInternalServerError, fmt.Errorf("failed to fix log leaf: %v", rsp)
